@@ -133,6 +133,12 @@ def domains(job, rng, lo_span, hi_span):
                     if end <= HI:
                         yield (st, end) if (k // cur["stride"]) % 3 else (end, st)
                 k += 1
+    for _ in range(job.get("tiny", 0)):
+        # domains only a few milliseconds long at arbitrary instants: conversion errors of 1e-4 ms would be visible here
+        st = rand_instant(rng)
+        end = st + dt.timedelta(milliseconds=rng.choice([1, 1, 2, 3, 5, 9, 17]))
+        if end <= HI:
+            yield (st, end) if rng.random() < 0.7 else (end, st)
     for _ in range(job.get("random", 0)):
         st = rand_instant(rng)
         sp = rng.choice(SPANS) if rng.random() < 0.5 else int(10 ** rng.uniform(0, 12.89))
